@@ -88,11 +88,28 @@ def rules(ck, P):
         short = impl["self_adt"].rsplit("::", 1)[-1]
         kinds = [e["kind"] for e in ev]
         ck.note("%s: %s" % (short, " ".join("%s%s" % (e["kind"], "*" if "loop" in e["ctx"] else "") for e in ev)))
-        ws = [e for e in ev if e["kind"] == "write_start"]
+        ws_all = [e for e in ev if e["kind"] == "write_start"]
+        # a header (re)written at offset 0 *before* the block-index range is assigned is as harmless as the provisional header the
+        # versatiles writer appends first (its block-index range is still empty, so the reader rejects the file): only write_starts
+        # whose serialisation follows the blocks_range assignment commit the file
+        sts0 = ir.stmts_of(ir.fn_block(m))
+        provisional = []
+        if ev and ev[0]["kind"] == "append":
+            br = [i for i, s_ in enumerate(sts0) for y in ir.walk_nodes(s_) if y.get("k") == "assign" and ir.place_str(y["l"]).endswith(".blocks_range")]
+            for e in ws_all:
+                arg0 = e["node"]["a"][0]
+                si0 = next((i for i, s_ in enumerate(sts0) if ir.contains(s_, lambda y: y is e["node"])), None)
+                h0 = ir.local_hid(arg0)
+                for i, s_ in enumerate(sts0):
+                    if s_.get("k") == "let" and h0 is not None and any(x["hid"] == h0 for x in ir.pat_binds(s_["pat"])):
+                        si0 = i
+                if br and si0 is not None and si0 < min(br) and e["ctx"] == ("top",):
+                    provisional.append(e)
+        ws = [e for e in ws_all if e not in provisional]
         # (a)
         oka = len(ws) == 1 and ws[0]["ctx"] == ("top",)
-        ck.check(oka, "R-COMMIT-ORDER", short + "|a-single-top-level", "exactly one write_start, unconditional, at the top level of write_to_writer",
-                 "write_start sites: %s" % [(e["fn"].rsplit("::", 1)[-1], e["ctx"]) for e in ws], ir.loc(m))
+        ck.check(oka, "R-COMMIT-ORDER", short + "|a-single-top-level", "exactly one committing write_start, unconditional, at the top level of write_to_writer%s" % (" (%d provisional header rewrite(s) before the block index range is known)" % len(provisional) if provisional else ""),
+                 "committing write_start sites: %s" % [(e["fn"].rsplit("::", 1)[-1], e["ctx"]) for e in ws], ir.loc(m))
         if not ws:
             continue
         wi = ev.index(ws[0])
